@@ -72,6 +72,7 @@ func runC27(c *Ctx) {
 			continue
 		}
 		nOut := 0
+		hdefs := localDefs(info, fd.Body)
 		walkStack(fd.Body, func(nd ast.Node, stack []ast.Node) bool {
 			var outs []ast.Expr
 			switch s := nd.(type) {
@@ -81,7 +82,8 @@ func runC27(c *Ctx) {
 				outs = []ast.Expr{s.Value}
 			}
 			for _, o := range outs {
-				ix, ok := unparen(o).(*ast.IndexExpr)
+				// jobs[i] written out, or a single-definition local loaded from it (`p := j.jobs[i]; …; return p`)
+				ix, ok := hdefs.resolve1(info, o).(*ast.IndexExpr)
 				if !ok || !isField(info, ix.X, jobsT, "jobs") {
 					continue
 				}
@@ -114,7 +116,7 @@ func runC27(c *Ctx) {
 			if !ok || len(rs.Results) != 2 {
 				return true
 			}
-			ix, ok := unparen(rs.Results[0]).(*ast.IndexExpr)
+			ix, ok := defs.resolve1(info, rs.Results[0]).(*ast.IndexExpr)
 			if !ok {
 				return true
 			}
@@ -132,22 +134,36 @@ func runC27(c *Ctx) {
 				if !ok {
 					continue
 				}
-				if id, ok := unparen(b.X).(*ast.Ident); ok && info.ObjectOf(id) == param {
-					if x, op, k, ok := cmpNorm(info, b); ok && x != nil {
-						p := intPred(op, k)
-						if !f.True {
-							q := p
-							p = func(v int64) bool { return !q(v) }
-						}
-						if samePredOnRange(p, func(v int64) bool { return v >= 1 }, -2, 4) {
-							lowOK = true
-						}
+				// a comparison with the parameter on either side: normalise to `param OP other`
+				isP := func(e ast.Expr) bool {
+					id, ok := unparen(e).(*ast.Ident)
+					return ok && param != nil && info.ObjectOf(id) == param
+				}
+				flip := map[token.Token]token.Token{token.LSS: token.GTR, token.GTR: token.LSS, token.LEQ: token.GEQ, token.GEQ: token.LEQ, token.EQL: token.EQL, token.NEQ: token.NEQ}
+				var other ast.Expr
+				op := b.Op
+				switch {
+				case isP(b.X):
+					other = b.Y
+				case isP(b.Y):
+					other, op = b.X, flip[b.Op]
+				default:
+					continue
+				}
+				if x, cop, k, ok := cmpNorm(info, b); ok && isP(x) {
+					p := intPred(cop, k)
+					if !f.True {
+						q := p
+						p = func(v int64) bool { return !q(v) }
 					}
-					if call, ok := isBuiltinCall(info, b.Y, "len"); ok && len(call.Args) == 1 && isField(info, call.Args[0], jobsT, "jobs") {
-						// !(jobId > len) or jobId <= len
-						if (b.Op == token.GTR && !f.True) || (b.Op == token.LEQ && f.True) {
-							highOK = true
-						}
+					if samePredOnRange(p, func(v int64) bool { return v >= 1 }, -2, 4) {
+						lowOK = true
+					}
+				}
+				if call, ok := isBuiltinCall(info, defs.resolve1(info, other), "len"); ok && len(call.Args) == 1 && isField(info, call.Args[0], jobsT, "jobs") {
+					// !(jobId > len) or jobId <= len (also written len < jobId / len >= jobId)
+					if (op == token.GTR && !f.True) || (op == token.LEQ && f.True) {
+						highOK = true
 					}
 				}
 			}
@@ -159,6 +175,7 @@ func runC27(c *Ctx) {
 	}
 	if fd, _ := c.MustFunc("R27d", "lang", "jobs", "List"); fd != nil {
 		ok := false
+		ldefs := localDefs(info, fd.Body)
 		// the slot index used for the Process field of the same literal
 		slotIdx := ""
 		ast.Inspect(fd.Body, func(nd ast.Node) bool {
@@ -180,9 +197,18 @@ func runC27(c *Ctx) {
 				return true
 			}
 			ast.Inspect(kv.Value, func(m ast.Node) bool {
-				if b, isB := m.(*ast.BinaryExpr); isB && b.Op == token.ADD {
-					if v, isC := constInt(info, b.Y); isC && v == 1 && slotIdx != "" && c.src(b.X) == slotIdx {
-						ok = true
+				e, isE := m.(ast.Expr)
+				if !isE {
+					return true
+				}
+				if _, isId := e.(*ast.Ident); isId {
+					e = ldefs.resolve1(info, e) // `id := i + 1 … Sprintf("%%%d", id)`
+				}
+				if b, isB := e.(*ast.BinaryExpr); isB && b.Op == token.ADD && slotIdx != "" {
+					for _, pr := range [][2]ast.Expr{{b.X, b.Y}, {b.Y, b.X}} {
+						if v, isC := constInt(info, pr[1]); isC && v == 1 && c.src(unparen(pr[0])) == slotIdx {
+							ok = true
+						}
 					}
 				}
 				return true
@@ -193,27 +219,52 @@ func runC27(c *Ctx) {
 	}
 	if fd, _ := c.MustFunc("R27d", "lang", "jobs", "_hasTerminated"); fd != nil {
 		ok := false
-		if len(fd.Body.List) == 1 {
-			if rs, isR := fd.Body.List[0].(*ast.ReturnStmt); isR && len(rs.Results) == 1 {
+		tdefs := localDefs(info, fd.Body)
+		isSlot := func(e ast.Expr) bool { // jobs[…] written out or a single-definition local loaded from it
+			ix, isIx := tdefs.resolve1(info, e).(*ast.IndexExpr)
+			return isIx && isField(info, ix.X, jobsT, "jobs")
+		}
+		isNilTest := func(e ast.Expr) bool {
+			x, isNil, isT := nilTestFact(info, Fact{E: e, True: true})
+			return isT && isNil && isSlot(x)
+		}
+		isTermCall := func(e ast.Expr) bool {
+			call, isC := unparen(e).(*ast.CallExpr)
+			if !isC {
+				return false
+			}
+			se, isS := call.Fun.(*ast.SelectorExpr)
+			return isS && se.Sel.Name == "HasTerminated" && isSlot(se.X)
+		}
+		// the body, after the definitions of single-definition locals: `return slot == nil || slot.HasTerminated()`
+		// or `if slot == nil { return true }; return slot.HasTerminated()`
+		var rest []ast.Stmt
+		for _, st := range fd.Body.List {
+			if as, isA := st.(*ast.AssignStmt); isA && as.Tok == token.DEFINE && len(rest) == 0 {
+				continue
+			}
+			rest = append(rest, st)
+		}
+		switch len(rest) {
+		case 1:
+			if rs, isR := rest[0].(*ast.ReturnStmt); isR && len(rs.Results) == 1 {
 				ds := disjuncts(rs.Results[0])
 				nilT, termT := false, false
 				for _, d := range ds {
-					if b, isB := unparen(d).(*ast.BinaryExpr); isB && b.Op == token.EQL {
-						if ix, isIx := unparen(b.X).(*ast.IndexExpr); isIx && isField(info, ix.X, jobsT, "jobs") {
-							if id, isId := unparen(b.Y).(*ast.Ident); isId && id.Name == "nil" {
-								nilT = true
-							}
-						}
-					}
-					if call, isC := unparen(d).(*ast.CallExpr); isC {
-						if se, isS := call.Fun.(*ast.SelectorExpr); isS && se.Sel.Name == "HasTerminated" {
-							if ix, isIx := unparen(se.X).(*ast.IndexExpr); isIx && isField(info, ix.X, jobsT, "jobs") {
-								termT = true
-							}
-						}
-					}
+					nilT = nilT || isNilTest(d)
+					termT = termT || isTermCall(d)
 				}
 				ok = nilT && termT && len(ds) == 2
+			}
+		case 2:
+			is, isIf := rest[0].(*ast.IfStmt)
+			rs, isR := rest[1].(*ast.ReturnStmt)
+			if isIf && isR && is.Else == nil && is.Init == nil && len(is.Body.List) == 1 && len(rs.Results) == 1 {
+				if r0, isR0 := is.Body.List[0].(*ast.ReturnStmt); isR0 && len(r0.Results) == 1 {
+					if v, isB := constBool(info, r0.Results[0]); isB && v {
+						ok = isNilTest(is.Cond) && isTermCall(rs.Results[0])
+					}
+				}
 			}
 		}
 		c.Check(ok, "R27d", "_hasTerminated:definition", fd.Pos(), "_hasTerminated(i) ⇔ jobs[i]==nil ∨ jobs[i].HasTerminated()")
@@ -239,7 +290,8 @@ func (c *Ctx) checkJobsGC(info *types.Info, fd *ast.FuncDecl) {
 			iObj = info.ObjectOf(id)
 		}
 		if b, ok := unparen(as.Rhs[0]).(*ast.BinaryExpr); ok && b.Op == token.SUB {
-			if call, ok := isBuiltinCall(info, b.X, "len"); ok && len(call.Args) == 1 && isField(info, call.Args[0], jobsT, "jobs") {
+			// len(jobs), possibly named by a single-definition local (`n := len(j.jobs)`)
+			if call, ok := isBuiltinCall(info, localDefs(info, fd).resolve1(info, b.X), "len"); ok && len(call.Args) == 1 && isField(info, call.Args[0], jobsT, "jobs") {
 				if v, ok := constInt(info, b.Y); ok && v == 1 {
 					if inc, ok := loop.Post.(*ast.IncDecStmt); ok && inc.Tok == token.DEC {
 						if x, op, k, ok := cmpNorm(info, loop.Cond); ok {
@@ -273,7 +325,8 @@ func (c *Ctx) checkJobsGC(info *types.Info, fd *ast.FuncDecl) {
 		return
 	}
 	isSlot := func(e ast.Expr) bool {
-		ix, ok := unparen(e).(*ast.IndexExpr)
+		// jobs[i] written out, or a single-definition local loaded from it (`job := j.jobs[i]`)
+		ix, ok := defs.resolve1(info, e).(*ast.IndexExpr)
 		if !ok || !isField(info, ix.X, jobsT, "jobs") {
 			return false
 		}
@@ -299,10 +352,8 @@ func (c *Ctx) checkJobsGC(info *types.Info, fd *ast.FuncDecl) {
 			}
 			slotNil, notRunning := false, false
 			for _, f := range factsOf(guardsAt(info, stack)) {
-				if b, ok := unparen(f.E).(*ast.BinaryExpr); ok && isSlot(b.X) {
-					if n, ok := unparen(b.Y).(*ast.Ident); ok && n.Name == "nil" && ((b.Op == token.EQL) == f.True) {
-						slotNil = true
-					}
+				if x, isNil, ok := nilTestFact(info, f); ok && isNil && isSlot(x) {
+					slotNil = true
 				}
 				if v, ok := unparen(f.E).(*ast.Ident); ok && !f.True {
 					if vo := info.ObjectOf(v); vo != nil {
@@ -335,6 +386,9 @@ func (c *Ctx) checkJobsGC(info *types.Info, fd *ast.FuncDecl) {
 		if !ok || info.ObjectOf(id) != runObj {
 			return true
 		}
+		if b, ok := constBool(info, as.Rhs[0]); ok && !b && as.Tok == token.DEFINE && as.End() <= loop.Pos() {
+			return true // `running := false` before the scan is the declaration (same as `var running bool`), not a reset
+		}
 		nRun++
 		if b, ok := constBool(info, as.Rhs[0]); !ok || !b {
 			okRun = false
@@ -355,25 +409,36 @@ func (c *Ctx) checkJobsGC(info *types.Info, fd *ast.FuncDecl) {
 		if !ok || info.ObjectOf(id) != runObj {
 			return true
 		}
-		gs := guardsAt(info, stack)
-		fs := factsOf(gs)
-		// all guards must be: slot != nil (true) and HasTerminated() false — nothing else
-		onlyThose := true
-		sawLive := false
-		for _, f := range fs {
-			if b, ok := unparen(f.E).(*ast.BinaryExpr); ok && isSlot(b.X) {
-				if n, ok := unparen(b.Y).(*ast.Ident); ok && n.Name == "nil" && ((b.Op == token.NEQ) == f.True) {
-					continue
-				}
+		// the guards of this store, as a boolean function of N (slot != nil) and T (slot.HasTerminated()): no other
+		// leaf may occur, the store must be reached for a live job (N ∧ ¬T) and not for a terminated one (N ∧ T) —
+		// whatever the shape (nested ifs, merged conditions, else-if, switch arms, `!T` first)
+		atom := func(e ast.Expr) (string, bool, bool) {
+			if x, isNil, ok := nilTestFact(info, Fact{E: e, True: true}); ok && isSlot(x) {
+				return "N", isNil, true
 			}
-			if call, ok := unparen(f.E).(*ast.CallExpr); ok && !f.True {
+			if call, ok := unparen(e).(*ast.CallExpr); ok {
 				if se, ok := call.Fun.(*ast.SelectorExpr); ok && se.Sel.Name == "HasTerminated" && isSlot(se.X) {
-					sawLive = true
-					continue
+					return "T", false, true
 				}
 			}
-			onlyThose = false
+			return "", false, false
 		}
+		var unk []string
+		holds := func(N, T bool) bool {
+			for _, g := range guardsAt(info, stack) {
+				if g.Cond == nil {
+					unk = append(unk, "switch")
+					return false
+				}
+				if evalBool(g.Cond, atom, map[string]bool{"N": N, "T": T}, &unk) == g.Neg {
+					return false
+				}
+			}
+			return true
+		}
+		live, dead := holds(true, false), holds(true, true)
+		onlyThose := len(unk) == 0
+		sawLive := live && !dead
 		if onlyThose && sawLive {
 			setsOnLive = true
 		}
@@ -386,6 +451,9 @@ func (c *Ctx) checkJobsGC(info *types.Info, fd *ast.FuncDecl) {
 		as, ok := nd.(*ast.AssignStmt)
 		if !ok || len(as.Lhs) != 1 || !isSlot(as.Lhs[0]) {
 			return true
+		}
+		if _, isIx := unparen(as.Lhs[0]).(*ast.IndexExpr); !isIx {
+			return true // `job := j.jobs[i]` loads the slot, it does not clear it
 		}
 		term := false
 		for _, f := range factsOf(guardsAt(info, stack)) {
